@@ -9,6 +9,7 @@ CONSTANTS
   AllowBreak = TRUE
   AllowStall = FALSE
   Cap = 1
+  AckDropSilently = FALSE
   AllowTopo = TRUE
   Warm = FALSE
   AllowRemove = TRUE
@@ -16,5 +17,5 @@ CONSTANTS
   FixGuardedDelete = TRUE
   FixOpening = TRUE
   FixPeerKey = TRUE
-INVARIANTS TypeOK TableSound HealthyListed NoDup MsgSound FixpointOK
+INVARIANTS NoSilentLoss TypeOK TableSound HealthyListed NoDup MsgSound FixpointOK
 CHECK_DEADLOCK FALSE
